@@ -361,7 +361,14 @@ class ApplyLinks(Processor):
                 else:
                     new_interaction = interaction
 
-                interaction_key = (*new_interaction.atoms, new_interaction.meta.get("version", 1))
+                version = new_interaction.meta.get("version", 1)
+                interaction_key = (*new_interaction.atoms, version)
+                # interactions of the blocks are all kept: several terms on the same atoms
+                # without an explicit version tag (e.g. multiple dihedrals) get consecutive versions
+                if mapping is None and "version" not in new_interaction.meta:
+                    while interaction_key in self.applied_links[inter_type]:
+                        version += 1
+                        interaction_key = (*new_interaction.atoms, version)
                 self.applied_links[inter_type][interaction_key] = (new_interaction, citations)
 
     def apply_link_between_residues(self, meta_molecule, link, link_to_resid):
